@@ -113,6 +113,10 @@ def run(ctx, prog):
                         f = rv['fields']
                         did = flow.render(of.of_operand(rv['ops'][f.index('doc_id')]))
                         dist = flow.render(ov.of_operand(rv['ops'][f.index('distance')]))
+                        # "the raw distance" = the .distance field of the very raw hit whose .doc_id is the slot looked up (whatever the loop variable is called)
+                        dt_, it_ = of.of_operand(rv['ops'][f.index('distance')]), of.of_operand(rv['ops'][f.index('doc_id')])
+                        same_hit = dt_[0] == 'field' and dt_[2].endswith('SearchResult.distance') and any(
+                            x[0] == 'field' and x[2].endswith('SearchResult.doc_id') and flow.render(x[1]) == flow.render(dt_[1]) for x in flow.walk(it_))
                         okid = bool(re.search(r'DocumentStore\.internal_to_external.*@Some→Some\.0.*@Some→Some\.0|internal_to_external.*Some.*Some', did)) and 'SearchResult.doc_id' in did
                         # Some(Some(_)) edge dominates
                         some_e = [(j, tg) for j, bl in enumerate(b.blocks) if bl['t']['k'] == 'switch' and j in b.live_blocks() for tg, p in flow.switch_edge_predicates(b, j, of)
@@ -122,7 +126,7 @@ def run(ctx, prog):
                         swb = sorted(set(j for j, _ in some_e))
                         cuts = all(i not in b.reach([0], avoid_edges=[e for e in some_e if e[0] == j]) for j in swb) if len(swb) >= 2 else False
                         ctx.inst('C06.R1', b.short.split('::{')[0], 'result #%d carries a live external id and the raw distance' % sum(1 for x in ctx.instances if x.get('config') == ctx.config and x['rule'] == 'C06.R1' and x['key'].startswith('C06.R1 | %s | result' % b.short.split('::{')[0])),
-                                 okid and cuts and dist in ('var:r→SearchResult.distance',),
+                                 okid and cuts and same_hit and bool(re.match(r'^var:\w+→SearchResult\.distance$', dist)),
                                  'doc_id = %s…; distance = %s; behind %d nested Some tests' % (did[-110:], dist, len(swb)))
     ctx.floor('C06.R1', 'SearchResult construction sites in the backend search paths', n, 2, 'single and batch')
     ck = ctx.body('C06.R1', 'hnsw_backend::compute_search_k')
